@@ -22,6 +22,8 @@ RULE = (
     "name, table_name, start, end, crange, usage; renaming a table in a document rewrites exactly the named ranges that "
     "pointed to it. Non-trivial = range strictly inside the table on at least one side, or a table name containing a "
     "dot/blank/apostrophe/$; distinct by (table spec, method, coordinates) or (table name, area)."
+    " Also named ranges carrying usage attributes (single value, list of values, 'none', absent; half of the cases through "
+    'save+reload) that must survive a table rename.'
 )
 ASSUMPTIONS = [
     "the tuple form is the reference for form-equivalence; lib/gridmodel gives the expected content of a clipped rectangle",
